@@ -181,6 +181,7 @@ func TestVerifC43(t *testing.T) {
 			case 3:
 				cl.F = simbe.Faults{ErrBefore: 200, PartialRead: 200, Budget: -1}
 			}
+			cl.F.TimeoutErrs = tp.Choose(2) == 0 // failing downloads may look like request timeouts
 			failedLoads := map[string]int{} // pack -> failed Load operations
 			cl.S.OnLeave = nil
 			calls := map[string]int{}
@@ -206,7 +207,7 @@ func TestVerifC43(t *testing.T) {
 			}
 			faults := 0
 			for k, v := range s.Stats() {
-				if k == "fault:load-err-before" || k == "fault:load-partial" {
+				if k == "fault:load-err-before" || k == "fault:load-partial" || k == "fault:load-short-then-err" {
 					faults += v
 				}
 			}
@@ -247,6 +248,11 @@ func TestVerifC43(t *testing.T) {
 				if _, ok := want[id]; !ok {
 					r.Fail("exactly-once", "unrequested-blob", "callback called for blob %s which was not requested", id[:8])
 				}
+			}
+			if perr != nil {
+				// the callback of this harness never fails and the context is never cancelled: failed downloads
+				// are answered by loading the blobs one by one, and what cannot be loaded is reported per blob
+				r.Fail("result", "call-failed-instead-of-falling-back", "LoadBlobsFromPack returned %v (download failures: %d); %d of %d callbacks were made", perr, faults, len(calls), len(want))
 			}
 			if perr != nil && faults == 0 {
 				r.Fail("result", "error-without-download-failure", "LoadBlobsFromPack returned %v without any download failure", perr)
